@@ -11,7 +11,7 @@ import struct
 from .lib import Out, TcpOrigin, keystream, now, run_main
 from .topo import CONNECTORS, HLEN, LISTENERS, Chain, parse_tunnel_header, tunnel_header
 
-B_CLOSE = 3.0
+B_CLOSE = 3.0   # "promptly": from the later of (FIN sent, last byte of that direction received) to EOF observed
 WATCHDOG = 15.0
 P_AFTER = 3000
 TLS_LISTENERS = {"https", "sockstls"}
@@ -65,6 +65,7 @@ class C04Origins:
                             rec["events"].append("eof")
                             return True
                         into.extend(b)
+                        rec["last_t"] = now()
                     return False
                 if scen == 8:
                     w.get_extra_info("socket").setsockopt(socket.SOL_SOCKET, socket.SO_RCVBUF, 65536)
@@ -163,6 +164,7 @@ async def scenario(out, chain, origins, seed, uid, lk, ck, scen, io_name, n_c2s,
                     t_close["client_eof"] = now()
                     return "eof"
                 got.extend(b)
+                t_close["last_data"] = now()
         except (ConnectionResetError, BrokenPipeError):
             t_close["client_eof"] = now()
             return "rst"
@@ -195,7 +197,7 @@ async def scenario(out, chain, origins, seed, uid, lk, ck, scen, io_name, n_c2s,
                 if rec["closed_t"]:
                     break
                 await asyncio.sleep(0.01)
-            obs["origin_saw_eof"] = rec["eof_t"] is not None and rec["eof_t"] - t_fin <= B_CLOSE
+            obs["origin_saw_eof"] = rec["eof_t"] is not None and rec["eof_t"] - max(t_fin, rec.get("last_t", 0)) <= B_CLOSE
             obs["origin_bytes_before_eof_ok"] = bytes(rec["c2s"]) == c2s
             obs["client_got_all_after_its_fin"] = bytes(got) == want_s2c + want_post
             obs["client_end"] = end
@@ -226,7 +228,7 @@ async def scenario(out, chain, origins, seed, uid, lk, ck, scen, io_name, n_c2s,
                 out.violation("origin never saw the tunnel: " + who, {"scenario": scen})
                 return None
             fin_t = rec.get("fin_t")
-            obs["client_saw_eof"] = end == "eof" and fin_t is not None and t_close.get("client_eof", 1e18) - fin_t <= B_CLOSE
+            obs["client_saw_eof"] = end == "eof" and fin_t is not None and t_close.get("client_eof", 1e18) - max(fin_t, t_close.get("last_data", 0)) <= B_CLOSE
             obs["client_bytes_before_eof_ok"] = bytes(got) == want_s2c
             if end == "timeout":
                 out.violation("half-close not relayed: origin FIN never reaches the client [%s]" % io_name, {"who": who, "client_received": len(got), "sent": len(want_s2c)})
@@ -245,7 +247,7 @@ async def scenario(out, chain, origins, seed, uid, lk, ck, scen, io_name, n_c2s,
                         break
                     await asyncio.sleep(0.01)
                 obs["origin_got_post"] = bytes(rec["c2s"]) == c2s + post_c2s
-                obs["origin_saw_eof"] = rec["eof_t"] is not None and rec["eof_t"] - t_fin <= B_CLOSE
+                obs["origin_saw_eof"] = rec["eof_t"] is not None and rec["eof_t"] - max(t_fin, rec.get("last_t", 0)) <= B_CLOSE
                 if not obs["origin_got_post"]:
                     out.violation("opposite direction stopped after a half-close (c2s after origin FIN) [%s]" % io_name,
                                   {"who": who, "origin_received": len(rec["c2s"]), "expected": len(c2s) + P_AFTER})
